@@ -4,11 +4,12 @@ use crate::support::*;
 use educe::Educe;
 use core::cmp::Ordering;
 #[derive(Educe)]
-#[educe(Eq, PartialEq, Ord)]
-pub struct T(#[educe(Ord(method(m_cmp)))] A<0>, #[educe(Ord(method(m_cmp)))] A<0>);
-impl PartialOrd for T { fn partial_cmp(&self, o: &Self) -> Option<Ordering> { Some(::core::cmp::Ord::cmp(self, o)) } }
-pub fn values() -> Vec<T> { vec![T(A(0), A(0)), T(A(0), A(1)), T(A(0), A(7)), T(A(1), A(0)), T(A(1), A(1)), T(A(1), A(7)), T(A(7), A(0)), T(A(7), A(1)), T(A(7), A(7))] }
-pub fn show(x: &T) -> String { #[allow(unused_variables)] match x { T(p0, p1) => format!("T({},{})", sv(p0), sv(p1)) } }
-pub fn o_disc(x: &T) -> i128 { match x { T(_, _) => 0 } }
-pub fn o_cmp(a: &T, b: &T) -> Ordering { match (a, b) { (T(a0, a1), T(b0, b1)) => { let c = m_cmp(a0, b0); if c != Ordering::Equal { return c; } let c = m_cmp(a1, b1); if c != Ordering::Equal { return c; } Ordering::Equal } } }
-pub fn run(out: &mut Out) { let vs = values(); for (i, a) in vs.iter().enumerate() { for (j, b) in vs.iter().enumerate() { let e = o_cmp(a, b); let g = ::core::cmp::Ord::cmp(a, b); out.check(g == e, "ord_20", "cmp", || format!("cmp({}, {}) = {:?} expected {:?}", show(a), show(b), g, e)); } } }
+#[repr(i64)]
+#[educe(Eq, PartialEq, PartialOrd, Ord)]
+pub enum T { A {  }, None(), C = 100, Unit(#[educe(PartialOrd(rank = "3"))] A<0>, #[educe(PartialOrd(ignore))] A<1>, #[educe(PartialOrd(rank = 5))] A<2>) = -170 }
+
+pub fn values() -> Vec<T> { vec![T::A {  }, T::None(), T::C, T::Unit(A(0), A(1), A(0)), T::Unit(A(7), A(7), A(1)), T::Unit(A(1), A(7), A(0)), T::Unit(A(7), A(0), A(0)), T::Unit(A(0), A(7), A(7)), T::Unit(A(1), A(1), A(7)), T::Unit(A(1), A(7), A(7)), T::Unit(A(7), A(7), A(7)), T::Unit(A(1), A(1), A(1))] }
+pub fn show(x: &T) -> String { #[allow(unused_variables)] match x { T::A {  } => format!("A()"), T::None() => format!("None()"), T::C => format!("C()"), T::Unit(p0, p1, p2) => format!("Unit({},{},{})", sv(p0), sv(p1), sv(p2)) } }
+pub fn o_disc(x: &T) -> i128 { match x { T::A {  } => 0, T::None() => 1, T::C => 100, T::Unit(_, _, _) => -170 } }
+pub fn o_cmp(a: &T, b: &T) -> Ordering { match (a, b) { (T::A {  }, T::A {  }) => {  Ordering::Equal }, (T::None(), T::None()) => {  Ordering::Equal }, (T::C, T::C) => {  Ordering::Equal }, (T::Unit(a0, a1, a2), T::Unit(b0, b1, b2)) => { let c = ::core::cmp::Ord::cmp(a0, b0); if c != Ordering::Equal { return c; } let c = ::core::cmp::Ord::cmp(a2, b2); if c != Ordering::Equal { return c; } Ordering::Equal }, _ => o_disc(a).cmp(&o_disc(b)) } }
+pub fn run(out: &mut Out) { let vs = values(); for (i, a) in vs.iter().enumerate() { for (j, b) in vs.iter().enumerate() { let e = o_cmp(a, b); let g = ::core::cmp::Ord::cmp(a, b); out.check(g == e, "ord_20", "cmp", || format!("cmp({}, {}) = {:?} expected {:?}", show(a), show(b), g, e)); let g2 = ::core::cmp::PartialOrd::partial_cmp(a, b); out.check(g2 == Some(e), "ord_20", "partial_is_some_cmp", || format!("partial_cmp({}, {}) = {:?} expected Some({:?})", show(a), show(b), g2, e)); } } }
